@@ -247,10 +247,10 @@ class Check:
         farm = Farm()
         t_s0 = time.time()
         queries = [
-            {"id": i, "text": o.text, "goal_index": o.meta.get("_goal_index"), "timeout_s": o.timeout or self.default_timeout, "tactic": o.meta.get("tactic")}
+            {"id": i, "text": o.text, "goal_index": o.meta.get("_goal_index"), "timeout_s": o.timeout or self.default_timeout, "tactic": o.meta.get("tactic"), "expect": o.expect}
             for i, o in enumerate(todo)
         ]
-        res = farm.run(queries) if queries else {}
+        res = farm.run(queries, max_sat=int(os.environ.get("VERIF_MAX_SAT", "40"))) if queries else {}
         farm.close()
         solver_wall = time.time() - t_s0
         for i, o in enumerate(todo):
